@@ -68,6 +68,10 @@ pub struct CustomBuilder<'a, const PT: u8, const MIN: usize> {
     pub count: u8,
     pub body: &'a [u8],
     pub padding: u8,
+    /// Both ways of implementing `get_padding()` ("gets the padding that was configured") occur in
+    /// third-party writers: `None` for zero (as tests/custom_packet.rs does) or `Some(self.padding)`
+    /// always. With this flag set a zero padding is reported as `Some(0)`.
+    pub report_some_zero: bool,
 }
 
 impl<'a, const PT: u8, const MIN: usize> RtcpPacketWriter for CustomBuilder<'a, PT, MIN> {
@@ -90,7 +94,7 @@ impl<'a, const PT: u8, const MIN: usize> RtcpPacketWriter for CustomBuilder<'a, 
         idx
     }
     fn get_padding(&self) -> Option<u8> {
-        if self.padding == 0 {
+        if self.padding == 0 && !self.report_some_zero {
             None
         } else {
             Some(self.padding)
